@@ -890,4 +890,7 @@ func runC18(e *env) {
 	if only == "" || only == "run" {
 		runC18Run(e)
 	}
+	if only == "" || only == "mgr" {
+		runC18Mgr(e)
+	}
 }
